@@ -45,9 +45,10 @@ type World struct {
 	commitKnown        bool
 	pendingColdRefresh bool
 	// what the caller knows after a crash: the roots it held at the last successful commit
-	savedRoots []savedRoot
-	NameOfVid  map[int]string // canonical value id -> handle name given by the history
-	RawIDs     bool           // cid() returns a function of the raw identifier instead of first-visit numbering
+	savedRoots  []savedRoot
+	NameOfVid   map[int]string // canonical value id -> handle name given by the history
+	Undecodable int            // registers that failed to decode while projecting
+	RawIDs      bool           // cid() returns a function of the raw identifier instead of first-visit numbering
 }
 
 type savedRoot struct {
@@ -153,7 +154,10 @@ func (w *World) peek(id atree.SlabID) atree.Slab {
 	}
 	s, err := atree.DecodeSlab(id, b, decMode(), testutils.DecodeStorable, decodeTypeInfo)
 	if err != nil {
-		panic(fmt.Sprintf("peek: register %s does not decode: %v", id, err))
+		// a register the library wrote and cannot read back: projected as a missing slab (the trace specification rejects the
+		// dangling reference / the register that does not re-encode), not a failure of the harness
+		w.Undecodable++
+		return nil
 	}
 	return s
 }
